@@ -153,6 +153,16 @@ def fam_frag(counts, tier: str, rnd: random.Random) -> list[dict]:
                             sc["rfaults"] = [[f, {"k": "ans", "d": 1}], [{"k": "ans", "d": 1}]]
                             sc["family"] = "frag"
                             out.append(sc)
+                # a head that stayed alone in the first attempt, and the retransmission answered in two pieces of which the
+                # first is as long as what the earlier head lacked (and the neighbouring lengths)
+                for s2 in (flen - split - 1, flen - split, flen - split + 1):
+                    if 1 <= s2 < flen:
+                        sc = base(kind, True, 1, fr)
+                        sc["epochs"] = [[{"start": 0, "prog": [req(100, n=n), {"do": "sleep", "d": 0}, req(101, n=n)]}]]
+                        sc["rfaults"] = [[{"k": "lone", "split": split, "d": 1},
+                                          {"k": "frag", "split": s2, "d": 1, "d2": 2, "second": "exact"}], [{"k": "ans", "d": 1}]]
+                        sc["family"] = "frag"
+                        out.append(sc)
                 # the same exact splits with contents that look like a frame header wherever the answer is cut
                 for pat in ("aa55", "55aa", "aa557fc0"):
                     sc = base(kind, True, 1, fr)
@@ -179,6 +189,22 @@ def fam_exc(tier: str) -> list[dict]:
                         sc["rfaults"] = [[{"k": "drop"}] * pos + [{"k": "exc", "code": code, "d": 1}], [{"k": "ans", "d": 1}]]
                         sc["family"] = "exc"
                         out.append(sc)
+    # the exception answers a retransmission after a history of incomplete answers: the head of a read answer cut at every
+    # point (so also lacking exactly the length of an exception frame) arrived during an earlier attempt and nothing more
+    for kind in ("udp", "tcp"):
+        for ka in (True, False):
+            for n in ((3, 8) if tier == "quick" else (1, 2, 3, 4, 8, 60, 125)):
+                flen = 2 * n + (7 if kind == "udp" else 9)
+                splits = range(1, flen) if flen <= 40 else sorted(set(list(range(1, 13)) + list(range(flen - 12, flen))))
+                for split in splits:
+                    for code in ((2, 0x0B) if tier == "quick" else (1, 2, 3, 4, 6, 0x0B, 0xFF)):
+                        for pos in ((1,) if tier == "quick" else (1, 2)):
+                            sc = base(kind, ka, 2)
+                            sc["epochs"] = [[{"start": 0, "prog": [req(100, n=n), {"do": "sleep", "d": 0}, req(101)]}]]
+                            sc["rfaults"] = [[{"k": "lone", "split": split, "d": 1}] + [{"k": "drop"}] * (pos - 1) +
+                                             [{"k": "exc", "code": code, "d": 1}], [{"k": "ans", "d": 1}]]
+                            sc["family"] = "exc"
+                            out.append(sc)
     return out
 
 
